@@ -231,6 +231,7 @@ async fn run_script(cfg_flags: u64, peer_flags: u64, connect: bool, steps: Vec<S
             Err(e) => return format!("connect-err {}", err_class(&e)),
         }
     }
+    let mut half: Option<tokio::net::tcp::OwnedReadHalf> = None;
     for step in &steps {
         let mut t = Toks::new(step);
         match t.next() {
@@ -243,6 +244,23 @@ async fn run_script(cfg_flags: u64, peer_flags: u64, connect: bool, steps: Vec<S
             }
             "R" => match conn.receive_message().await {
                 Ok((m, payload)) => out.push(format!("ok {} | {}", show_control(&m), payload.map_or("-".to_string(), |p| term_str(&p)))),
+                Err(e) => out.push(err_class(&e).to_string()),
+            },
+            "H" => {
+                // the stream read through the connection's read half, as the node's receiver task does
+                if half.is_none() {
+                    half = conn.take_read_half();
+                }
+                match half.as_mut() {
+                    None => out.push("state".to_string()),
+                    Some(h) => match Connection::receive_message_from_read_half(h, conn.timeout()).await {
+                        Ok((m, payload)) => out.push(format!("ok {} | {}", show_control(&m), payload.map_or("-".to_string(), |p| term_str(&p)))),
+                        Err(e) => out.push(err_class(&e).to_string()),
+                    },
+                }
+            }
+            "W" => match conn.receive_raw().await {
+                Ok(b) => out.push(format!("raw {}", hex(&b))),
                 Err(e) => out.push(err_class(&e).to_string()),
             },
             "S" => out.push(do_send(&mut conn, &mut t).await),
